@@ -470,6 +470,8 @@ def path_kinds(n=4):
         "probe": _p({"k": "probe", "inner": gen(19), "pid": 0}),
         "complex": {"k": "ann", "name": "PSD", "of": {"k": "generic", "n": n, "dtype": "c16", "seed": 20, "sym": "psd"}},
         "float32": {"k": "ann", "name": "PSD", "of": {"k": "generic", "n": n, "dtype": "f4", "seed": 21, "sym": "psd"}},
+        "zero": {"k": "ann", "name": "PSD", "of": {"k": "generic", "n": n, "dtype": "f8", "seed": 22, "sym": "zero"}},
+        "singular": {"k": "ann", "name": "PSD", "of": {"k": "generic", "n": n, "dtype": "f8", "seed": 23, "sym": "psd_singular"}},
     }
 
 
@@ -597,6 +599,7 @@ MATRIX_ROUTINES = [
     ("power_iteration", {"max_iter": 3}, True), ("nystrom", {"rank": 2}, True),
     ("cg_nystrom", {"rank": 2, "max_iters": 3, "b": {"arr": {"shape": [4], "dtype": "f8", "seed": 9}}}, True),
     ("lobpcg", {"max_iters": 2}, True),
+    ("nystrom_pipeline", {"rank": 2, "max_iters": 3, "b": {"arr": {"shape": [4], "dtype": "f8", "seed": 9}}}, True),
     ("adanys", {"rank": 2, "bounds": [0.1, 0.5, 2.0]}, False), ("select_rank", {"rank_init": 1, "rank_max": 2, "tol": 1.0}, False),
     ("randomized_svd", {"rank": 2}, False),
     # degenerate parameters
@@ -673,4 +676,29 @@ def key_programs_c17():
             for k2 in small:
                 if k1 != k2:
                     add("%s/%s,%s" % (fn, k1, k2), [direct(fn, k1), direct(fn, k2)])
+    return out
+
+
+# ------------------------------------------------------------------------------------------
+# I-STEPS programs (C17): Hutchinson on a user operator whose products are counted, with non-finite products
+# injected at chosen iterations, for every small max_iters: at most max(1, max_iters) products, always.
+def steps_programs_c17():
+    out = []
+    A = {"k": "ann", "name": "PSD", "of": {"k": "probe", "inner": {"k": "generic", "n": 4, "dtype": "f8", "seed": 31, "sym": "psd"},
+                                            "pid": 0}}
+    for mi in (0, 1, 2, 3, 6):
+        for rand in ("normal", "rademacher"):
+            for fault in (None, {"0": ["nonfinite", "nan"]}, {"0": ["nonfinite", "inf"]}, {"1": ["nonfinite", "nan"]},
+                          {"0": ["nonfinite", "nan"], "1": ["nonfinite", "nan"], "2": ["nonfinite", "nan"]}):
+                for fn, extra in (("hutch", {"k": 0}), ("diag_hutch", {"k": 0}), ("trace_hutch", {})):
+                    c = {"op": "call", "fn": fn, "args": dict({"A": {"slot": "A0"}, "tol": 0.0011, "max_iters": mi, "rand": rand,
+                                                                "key": 3}, **extra)}
+                    if fault:
+                        c["x"] = {"cb": fault}
+                    steps = [{"op": "make", "slot": "A0", "recipe": A}, c, {"op": "user", "act": ["draw", "randn", 1], "slot": "s0"}]
+                    for j, s in enumerate(steps):
+                        s["id"] = j
+                    out.append({"name": "%s/max_iters=%d/%s/%s" % (fn, mi, rand, "+".join(sorted(fault)) if fault else "clean"),
+                                "program": {"property": "C17", "run_seed": 0, "rng0": 3, "config": {"steps": [fn, mi]},
+                                            "mode": "explicit", "steps": steps}})
     return out
